@@ -72,6 +72,9 @@ func keysOf(m map[string]bool) []string {
 }
 
 func c19(c *Ctx) {
+	c.R.Rule("ALIAS(device ledger): a ResourceList stored into the used ledger by nodeDevice.updateDeviceUsed is a fresh value, never the allocation's own map (which Reserve hands on to PreBind: a second pod on the same device would rewrite what the first pod persists)")
+	aliasStoresFresh(c, "nodeDevice", "updateDeviceUsed")
+	numaReleaseWritesBack(c)
 	quotaAssignByState(c)
 	c.R.Rule("FRESH(allocated view): NodeAllocation.getAvailableCPUs hands out a copy of the allocated-CPU details on every return, never the record's own map (callers use it after the lock is released)")
 	freshResult(c, c.Fn(numaPkg, "NodeAllocation", "getAvailableCPUs"), 1, "the scheduling cycle reads the view after the node lock is released while informer events rewrite it, so the view no longer matches the available set returned with it")
